@@ -1426,3 +1426,30 @@ package mcp
 //@ type streamableHTTPClientTransport
 //@   invariant[C07 the-remembered-event-id-can-be-sent-as-a-header] isValidEventID(self.lastEventID)
 //@
+// ---- fourth measurement round (ids -6): general facts behind the misses ----
+// C02 — an answer is an error answer exactly when its top-level object has an "error" member
+//@ func isErrorResponse
+//@   before call return#2 assert[C02 error-answers-are-recognised-by-the-top-level-error-member-only] ret <==> ("error" in message)
+//@
+// C10 — every Send* of the in-call sender that reports success has written one event (nothing is filtered)
+//@ func sseNotificationSender.SendProgress
+//@   ensures[C10 a-successful-send-has-written-an-event] result == nil ==> gens == old(gens) + 1
+//@ func sseNotificationSender.SendLogMessage
+//@   ensures[C10 a-successful-send-has-written-an-event] result == nil ==> gens == old(gens) + 1
+//@ func sseNotificationSender.SendCustomNotification
+//@   ensures[C10 a-successful-send-has-written-an-event] result == nil ==> gens == old(gens) + 1
+//@ func sseNotificationSender.SendNotification
+//@   ensures[C10 a-successful-send-has-written-an-event] result == nil ==> gens == old(gens) + 1
+//@
+// C11 / C05 — the table of listening streams is changed only by the stream's own handler and by session teardown
+//@ type httpServerHandler
+//@   private[C11,C05] getSSEConnections writers handleGet, cleanupSession
+//@
+// C14 — every server kind hands its dispatcher a lifecycle manager with the same default protocol version
+//@ func newLifecycleManager
+//@   ensures[C14 the-default-protocol-version] result != nil && result.defaultProtocolVersion == ProtocolVersion_2025_03_26
+//@ func NewSSEServer
+//@   before call newMCPHandler#1 assert[C14 default-protocol-version-is-the-same-on-every-server-kind] lifecycleManager.defaultProtocolVersion == ProtocolVersion_2025_03_26
+//@ func NewStdioServer
+//@   before call return#0 assert[C14 default-protocol-version-is-the-same-on-every-server-kind] lifecycleManager.defaultProtocolVersion == ProtocolVersion_2025_03_26
+//@
